@@ -33,7 +33,9 @@ pub enum PayPolicy {
 
 pub struct Session {
     pub child: Child,
-    pub stdin: Option<std::process::ChildStdin>,
+    /// bytes for the plugin's stdin go through a writer thread: a plugin that stops reading (a
+    /// deadlock) must not block the checker in write()
+    pub stdin: Option<std::sync::mpsc::Sender<Vec<(Vec<u8>, bool)>>>,
     pub events: Receiver<Ev>,
     pub node: Node,
     pub dir: String,
@@ -76,7 +78,8 @@ pub struct Session {
 #[derive(Clone, Copy, Debug, PartialEq)]
 pub enum Wait {
     Done,
-    /// the plugin answered a later plain forward but not this
+    /// the plugin answered a later plain forward but not this; or it answered nothing although
+    /// every thread of its process sleeps without consuming CPU (deadlock)
     Hung,
     /// nothing was answered in time: load, not a verdict
     TooSlow,
@@ -190,7 +193,23 @@ impl Session {
                 }
             }
         });
-        let stdin = child.stdin.take();
+        let stdin = child.stdin.take().map(|mut w| {
+            let (tx, rx) = std::sync::mpsc::channel::<Vec<(Vec<u8>, bool)>>();
+            std::thread::spawn(move || {
+                for chunks in rx {
+                    for (c, pause) in chunks {
+                        if w.write_all(&c).is_err() {
+                            return;
+                        }
+                        let _ = w.flush();
+                        if pause {
+                            std::thread::sleep(Duration::from_micros(200));
+                        }
+                    }
+                }
+            });
+            tx
+        });
         let mut s = Session {
             child,
             stdin,
@@ -269,25 +288,20 @@ impl Session {
     }
 
     pub fn send_raw(&mut self, bytes: &[u8], chunking: u64) {
-        if let Some(stdin) = self.stdin.as_mut() {
-            if chunking == 0 {
-                let _ = stdin.write_all(bytes);
-                let _ = stdin.flush();
-            } else {
-                let mut i = 0;
-                while i < bytes.len() {
-                    let k = (1 + self.rng.below(chunking)) as usize;
-                    let j = (i + k).min(bytes.len());
-                    if stdin.write_all(&bytes[i..j]).is_err() {
-                        break;
-                    }
-                    let _ = stdin.flush();
-                    i = j;
-                    if self.rng.chance(1, 4) {
-                        std::thread::sleep(Duration::from_micros(200));
-                    }
-                }
+        let mut chunks: Vec<(Vec<u8>, bool)> = vec![];
+        if chunking == 0 {
+            chunks.push((bytes.to_vec(), false));
+        } else {
+            let mut i = 0;
+            while i < bytes.len() {
+                let k = (1 + self.rng.below(chunking)) as usize;
+                let j = (i + k).min(bytes.len());
+                chunks.push((bytes[i..j].to_vec(), self.rng.chance(1, 4)));
+                i = j;
             }
+        }
+        if let Some(tx) = self.stdin.as_ref() {
+            let _ = tx.send(chunks);
         }
     }
 
@@ -622,8 +636,51 @@ impl Session {
             } else {
                 Wait::Hung
             }
+        } else if self.asleep() {
+            // not even a plain forward is answered, and the process is not starved: it sleeps
+            Wait::Hung
         } else {
             Wait::TooSlow
+        }
+    }
+
+    /// True iff every thread of the plugin process is sleeping (not runnable, not in disk wait)
+    /// and the process consumed no CPU time across two samples 1.2 s apart. A process in that
+    /// state is not being starved by load: it is waiting for something. Together with an
+    /// unanswered plain forward (which depends on nothing) that is a deadlock, not slowness.
+    pub fn asleep(&mut self) -> bool {
+        let pid = self.child.id();
+        let sample = || -> Option<(bool, u64)> {
+            let mut all_sleeping = true;
+            let mut ticks = 0u64;
+            let mut n = 0;
+            for e in std::fs::read_dir(format!("/proc/{pid}/task")).ok()? {
+                let e = e.ok()?;
+                let st = std::fs::read_to_string(e.path().join("stat")).ok()?;
+                let rest = &st[st.rfind(')')? + 1..];
+                let f: Vec<&str> = rest.split_whitespace().collect();
+                // after the comm field: state is f[0], utime f[11], stime f[12]
+                if f.len() < 13 {
+                    return None;
+                }
+                if f[0] != "S" {
+                    all_sleeping = false;
+                }
+                ticks += f[11].parse::<u64>().ok()? + f[12].parse::<u64>().ok()?;
+                n += 1;
+            }
+            if n == 0 {
+                None
+            } else {
+                Some((all_sleeping, ticks))
+            }
+        };
+        let a = sample();
+        self.pump_for(Duration::from_millis(1200));
+        let b = sample();
+        match (a, b) {
+            (Some((true, t1)), Some((true, t2))) => t1 == t2,
+            _ => false,
         }
     }
 
